@@ -70,6 +70,105 @@ def match_known(prop, scope, ident, feats, probs) -> list | None:
     return ids
 
 
+OPERANDS = ["RsV", "RxV", "RxxV", "PuV", "PxV", "NsN", "PtN", "siV", "uiV", "P0", "R31", "HEX_REG_ALIAS_SP", "HEX_REG_ALIAS_PC", "CsV", "MuV", "RssV"]
+REC_CTX = ["{ int32_t a = 1; int32_t b = 2; EA = ((a + %s) + b); }", "{ int32_t a = 1; int32_t b = (a ? %s : a); }",
+           "{ int32_t a = 1; if (a) { a = %s; } }", "{ int32_t a = 1; EA = a; mem_store_u32(EA, %s); }",
+           "{ int32_t a = 1; int32_t b = sextract64(a, %s, a); }", "{ int32_t a = 1; int32_t b = a + ((int32_t)clz32(a + %s)); }"]
+REC_WRITE = ["{ int32_t a = 1; RdV = a; a = (a + RdV) + a; }", "{ int32_t a = 1; RxV = (a + RxV) + a; }", "{ int32_t a = 1; PdV = a; }",
+             "{ int32_t a = 1; JUMP(a); }", "{ int32_t a = 1; cancel_slot; a = a + 1; }", "{ int32_t a = 1; a = a + 1; }",
+             "{ int32_t a = 1; if (a) { STORE_SLOT_CANCELLED(pkt, slot); } }", "{ int32_t a = 1; EA = a; a = ((int32_t)mem_load_s32(EA)); }"]
+
+
+def records_of_programs(gen_srcs, viol) -> int:
+    """The companion record (needs_hi / needs_pkt, getters) of behaviours compiled through `transform_insn`:
+    every operand kind alone between locals in several contexts, single and as the second part of a two-part
+    instruction, plus generated programs. The mention test is Lean's (token level, on the text of the record)."""
+    from rzilcompiler.Parser import ParsedInsn
+    srcs = [c_ % o for o in OPERANDS for c_ in REC_CTX] + REC_WRITE + list(gen_srcs)
+    parsed = rc.parse_programs(srcs)
+    c = rc.compiler(textcheck.FORMATS[0])
+    plain = "{ int32_t q = 1; q = q + 1; }"
+    plain_tree = c.parser.parse(plain)
+    sess = textcheck.TextSession()
+    for name, ret, params, text in rc.sub_routine_defs(c):
+        sess.def_sub(name, ret, params, text)
+    recs = []
+    for i, (src, pr) in enumerate(zip(srcs, parsed)):
+        if pr[0] != "ok":
+            continue
+        for two in (False, True):
+            name = f"GEN_rec{i}" + ("_2p" if two else "")
+            pi = ParsedInsn(name, [plain_tree, pr[1]] if two else [pr[1]], [plain, src] if two else [src])
+            r = rc.transform_all(c, {name: pi})[name]
+            if r["status"] != "ok":
+                continue
+            for j, text in enumerate(r["rzil"]):
+                sess.text(text, tag=(len(recs), j))
+            recs.append((name, src, r))
+    n = 0
+    for tag, rep in sess.run():
+        if tag is None:
+            continue
+        name, src, r = recs[tag[0]]
+        j = tag[1]
+        n += 1
+        bad = []
+        if rep.get("hi") and not r["needs_hi"][j]:
+            bad.append("text mentions hi but needs_hi is false")
+        if rep.get("pkt") and not r["needs_pkt"][j]:
+            bad.append("text mentions pkt but needs_pkt is false")
+        nparts = len(r["rzil"])
+        want = f"hex_il_op_{name.lower()}" + (f"_part{j}" if nparts > 1 else "")
+        if len(r["getter"]) != nparts or len(r["getter_decl"]) != nparts or len(r["needs_hi"]) != nparts or len(r["needs_pkt"]) != nparts:
+            bad.append("not one getter / flag per part")
+        elif r["getter"][j] != want or want not in r["getter_decl"][j]:
+            bad.append(f"getter name {r['getter'][j]!r}, expected {want!r}")
+        if bad:
+            viol.append({"what": bad, "scope": "record", "ident": name, "part": j, "program": src, "emitted": r["rzil"][j],
+                         "reproduce": f"transform_insn({name!r}, ParsedInsn(.., [parse({src!r})], ..)) and compare needs_hi/needs_pkt with the text"})
+    return n
+
+
+SUB_BUNDLE_SPELLINGS = ["HexInsnPktBundle *bundle", "HexInsnPktBundle* bundle", "const HexInsnPktBundle *bundle", "HexInsnPktBundle  *bundle",
+                        "HexInsnPktBundle * bundle"]
+SUB_BODIES = [("uint32_t", ["uint32_t a"], "{ return a + HEX_REG_ALIAS_USR; }"), ("uint32_t", ["uint32_t a"], "{ uint32_t x = a + RsV; return x; }"),
+              ("uint32_t", ["uint32_t a"], "{ return a + siV; }"), ("uint32_t", ["uint32_t a"], "{ return a + 1; }")]
+
+
+def api_sub_routines(viol) -> int:
+    """Sub-routines registered through the public API (`compile_sub_routine`): a body that mentions hi / pkt declares
+    them, whatever legal spelling the bundle parameter's type has (Lean's wfBody on the DEF text)."""
+    from rzilcompiler.Transformer.Hybrids.SubRoutine import SubRoutineInitType
+    c = rc.compiler(textcheck.FORMATS[0], fresh=True)
+    sess = textcheck.TextSession()
+    done = []
+    k = 0
+    for sp in SUB_BUNDLE_SPELLINGS:
+        for ret, params, body in SUB_BODIES:
+            k += 1
+            name = f"gen_api_sub_{k}"
+            try:
+                with rc.quiet():
+                    c.add_sub_routine(name, ret, [sp] + params, body)
+            except Exception as e:   # a spelling the dialect does not accept is rejected, which is fine
+                continue
+            d = [x for x in rc.sub_routine_defs(c) if x[0] == name]
+            if not d:
+                continue
+            n_, ret_s, ps, text = d[0]
+            sess.def_sub(n_, ret_s, ps, text, tag=len(done))
+            done.append((name, sp, body, text))
+    for tag, rep in (sess.run() if done else []):
+        if tag is None:
+            continue
+        name, sp, body, text = done[tag]
+        probs = [p_ for p_ in rep.get("c11", []) if re.search(r"\b(hi|pkt)\b", p_)]
+        if probs:
+            viol.append({"what": probs[:3], "scope": "api-sub", "ident": name, "bundle_parameter": sp, "program": body, "emitted": text,
+                         "reproduce": f"Compiler.compile_sub_routine({name!r}, 'uint32_t', [{sp!r}, 'uint32_t a'], {body!r})"})
+    return len(done)
+
+
 def run_prop(prop: str, tier: str, replay=None) -> int:
     res = Result(prop, tier)
     st = prepare(prop, translate=translate.run_all)
@@ -204,6 +303,11 @@ def run_prop(prop: str, tier: str, replay=None) -> int:
         distinct.add(("gen", it["src"]))
         if len(samples) < 5 and it["stream"] == "clean":
             samples.append({"program": it["src"], "stream": it["stream"], "carve_out_classes": sorted(feats)})
+    # ---- C11: companion records of generated / directed behaviours, and sub-routines registered through the API
+    api_subs = 0
+    if prop == "C11":
+        rec_checked += records_of_programs([it["src"] for it in items if it["status"] == "ok"][:60], viol)
+        api_subs = api_sub_routines(viol)
     for k in known_for(prop):
         if k.get("scope") == "corpus" and known_hit.get(k["id"]):
             res.known(f"{k['id']}: {k['what']} [corpus instruction {k['insn']}] ({k.get('site', '')})")
@@ -225,7 +329,7 @@ def run_prop(prop: str, tier: str, replay=None) -> int:
         "exhaustive": tier == "thorough",
         "corpus": cstats,
         "generated": gstats,
-        "companion_records_checked": rec_checked,
+        "companion_records_checked": rec_checked, "api_sub_routines_checked": api_subs,
         "known_finding_hits": known_hit,
         "violations_total": len(viol),
         "samples": samples,
